@@ -39,7 +39,7 @@ variable (s : Sample)
 @[simp] theorem smp_ts : Row.get (qualify "samples" s.row) "samples.timestamp_ns" = .int s.ts := by
   simp [qualify, Sample.row, Row.get, List.lookup]
 @[simp] theorem smp_fp : Row.get (qualify "samples" s.row) "samples.fingerprint" = .int s.fp := by
-  simp [qualify, Sample.row, Row.get, List.lookup]
+  simp [qualify, Sample.row, Row.get]
 @[simp] theorem smp_str : Row.get (qualify "samples" s.row) "samples.string" = .str s.str := by
   simp [qualify, Sample.row, Row.get, List.lookup]
 @[simp] theorem smp_str' : Row.get (qualify "samples" s.row) "string" = .str s.str := by
@@ -109,8 +109,8 @@ theorem mainWhere_eval (o : Oracles) (c : Ctx) (d : LokiDb) (q : LogQuery) (env 
 
 theorem rowLe_main (c : Ctx) (a b : Sample) :
     rowLe [("timestamp_ns", dirOf c)] (mainRow a) (mainRow b) = tsLe c a b := by
-  have ha : Row.get (mainRow a) "timestamp_ns" = .int a.ts := by simp [mainRow, Row.get, List.lookup]
-  have hb : Row.get (mainRow b) "timestamp_ns" = .int b.ts := by simp [mainRow, Row.get, List.lookup]
+  have ha : Row.get (mainRow a) "timestamp_ns" = .int a.ts := by simp [mainRow, Row.get]
+  have hb : Row.get (mainRow b) "timestamp_ns" = .int b.ts := by simp [mainRow, Row.get]
   simp only [rowLe, ha, hb, int_beq, dirOf, tsLe]
   by_cases h : a.ts = b.ts
   · simp [h]
@@ -145,7 +145,7 @@ def tsOut (o : Oracles) (t : TsRow) : Row := [("fingerprint", .int t.fp), ("labe
 section ts
 variable (t : TsRow)
 @[simp] theorem qts_date : Row.get (qualify "time_series" t.row) "time_series.date" = .str t.date := by
-  simp [qualify, TsRow.row, Row.get, List.lookup]
+  simp [qualify, TsRow.row, Row.get]
 @[simp] theorem qts_fp : Row.get (qualify "time_series" t.row) "time_series.fingerprint" = .int t.fp := by
   simp [qualify, TsRow.row, Row.get, List.lookup]
 @[simp] theorem qts_labels : Row.get (qualify "time_series" t.row) "time_series.labels" = .str t.labels := by
